@@ -19,6 +19,7 @@ import re
 import shutil
 import subprocess
 import tempfile
+import time
 
 import gen_erracct
 import vlib
@@ -292,11 +293,20 @@ def parse_results(out):
             res[ln.split(" ")[1]] = cur
         elif ln.startswith("END ") and cur is not None:
             w = ln.split(" ")
-            cur["end"] = dict(status=w[2].split("=")[1], code=int(w[3].split("=")[1]), stderr=unhx(w[4].split("=", 1)[1]).decode("utf-8", "replace"))
+            cur["end"] = dict(status=w[2].split("=")[1], code=int(w[3].split("=")[1]), stderr=unhx(w[4].split("=", 1)[1]).decode("utf-8", "replace"),
+                              cpu=float(w[5].split("=")[1]) if len(w) > 5 else 0.0)
             cur = None
         elif cur is not None:
             cur["lines"].append(ln)
     return res
+
+
+HANG_CPU = 60          # CPU seconds a case must burn alone on the plain build, without progress, before "does not return" is a verdict
+
+
+def wall_limit(cpu_seconds):
+    """outer wall-clock guard of one case (harness default): only ever means "not judged" """
+    return 30.0 * cpu_seconds + 120.0
 
 
 def run_batch(exe, batch, timeout, keep=False):
@@ -319,7 +329,7 @@ def run_batch(exe, batch, timeout, keep=False):
         env = dict(os.environ, ASAN_OPTIONS=ASAN_ENV, UBSAN_OPTIONS=UBSAN_ENV)
         try:
             r = subprocess.run([str(exe)], input=("\n".join(script) + "\n").encode(), capture_output=True, cwd=d, env=env,
-                               timeout=(timeout + 10) * len(batch) + 60)
+                               timeout=sum(wall_limit(c_.get("timeout") or timeout) + 30 for _, c_ in batch) + 120)
             out = r.stdout.decode("latin-1")
         except subprocess.TimeoutExpired as e:
             out = (e.stdout or b"").decode("latin-1")
@@ -330,14 +340,21 @@ def run_batch(exe, batch, timeout, keep=False):
             shutil.rmtree(d, ignore_errors=True)
 
 
-def run_cases(exe, cases, timeout, workers=None, batch=6):
+def run_cases_iter(exe, cases, timeout, workers=None, batch=6):
+    """yields (index, record) as the batches finish (in submission order), so that analysis and hang confirmations overlap with the run"""
     items = list(enumerate(cases))
     batches = [[(str(i), c) for i, c in items[k:k + batch]] for k in range(0, len(items), batch)]
-    out = {}
     with concurrent.futures.ThreadPoolExecutor(max_workers=workers or max(2, vlib.NCPU)) as ex:
-        for res in ex.map(lambda b_: run_batch(exe, b_, timeout), batches):
-            out.update(res)
-    return [out.get(str(i)) for i in range(len(cases))]
+        futs = [ex.submit(run_batch, exe, b_, timeout) for b_ in batches]
+        for b_, f in zip(batches, futs):
+            res = f.result()
+            for cid, _ in b_:
+                yield int(cid), res.get(cid)
+
+
+def run_cases(exe, cases, timeout, workers=None, batch=6):
+    out = dict(run_cases_iter(exe, cases, timeout, workers, batch))
+    return [out.get(i) for i in range(len(cases))]
 
 
 def run_one(exe, c, timeout):
@@ -383,7 +400,7 @@ def resolve_throw(exe, spec):
     fn = "unknown-site"
     if addrs:
         try:
-            r = subprocess.run(["addr2line", "-f", "-C", "-e", str(exe)] + addrs, capture_output=True, text=True, timeout=60)
+            r = subprocess.run(["addr2line", "-f", "-C", "-e", str(exe)] + addrs, capture_output=True, text=True, timeout=1800)
             lines = r.stdout.splitlines()
             for i in range(0, len(lines) - 1, 2):
                 f, loc = lines[i], lines[i + 1]
@@ -413,7 +430,15 @@ def model_strings(ctx, groups):
     lines = []
     for on, evs in groups:
         lines += [f"cfg err {int(on)} 0"] + [" ".join(e[:-2] + [_to_model(e[-2])]) for e in evs] + ["end"]
-    out = ctx.pmodel("route", "\n".join(lines) + "\n")
+    out = None
+    for attempt in (1, 2, 3):                       # no wall-clock verdicts: a slow or momentarily missing model binary is retried, then "not judged"
+        try:
+            out = ctx.pmodel("route", "\n".join(lines) + "\n", timeout=3600)
+            break
+        except (subprocess.TimeoutExpired, RuntimeError, OSError):
+            time.sleep(2 * attempt)
+    if out is None:
+        return None
     res, cur = [], {}
     for ln in out:
         p = ln.split(" ")
@@ -492,6 +517,8 @@ def analyse(ctx, exe, c, rec):
     info = dict(ops=len(c["ops"]), nerr=0, nwarn=0, ret=[], stop=0, compared=0, reload_compared=0)
     issues = []
     if P["L0"] is None or P["L0"][0] != 0 or P["L0"][1] != "-":
+        if end["status"] == "walltimeout":
+            return dict(status="notjudged:wall-clock-guard", issues=[], info=info)
         if P["L0"] is None and end["status"] != "timeout":
             issues.append(("a", "base-load-died", "the process died while loading the unmodified base database: " + end["stderr"][:300]))
             return dict(status="judged", issues=issues, info=info)
@@ -522,7 +549,9 @@ def analyse(ctx, exe, c, rec):
             phase = "probe"
         err = end["stderr"]
         info["phase"] = phase
-        if end["status"] == "timeout" or (end["status"] == "signal" and end["code"] in (9, 24)):     # SIGKILL by the harness / SIGXCPU
+        if end["status"] == "walltimeout":
+            return dict(status="notjudged:wall-clock-guard", issues=[], info=info)                   # machine too busy or child blocked: never a verdict
+        if end["status"] == "timeout" or (end["status"] == "signal" and end["code"] in (9, 24)):     # CPU budget used up (killed by the harness / SIGXCPU)
             info["samples"] = err[err.find("#SAMPLE"):] if "#SAMPLE" in err else ""
             return dict(status="notjudged:timeout", issues=[], info=info)
         # precondition of C08: no failed call since the last successful load — a death inside a call that follows a failed call is not judged
@@ -603,6 +632,9 @@ def analyse(ctx, exe, c, rec):
             groups.append((on, plain))
             gmeta.append((k, o, on, "run", 0))
     preds = model_strings(ctx, groups)
+    if preds is None:
+        return dict(status="notjudged:model-evaluation-unavailable", issues=issues, info=info) if issues else \
+            dict(status="notjudged:model-evaluation-unavailable", issues=[], info=info)
     for (k, o, on, mode, extra), pv in zip(gmeta, preds):
         if pv.get("bad"):
             raise RuntimeError("pmodel route could not parse event lines")
@@ -810,7 +842,7 @@ def sample_sites(exe, text):
         if not addrs:
             continue
         try:
-            r = subprocess.run(["addr2line", "-f", "-C", "-e", str(exe)] + addrs[:40], capture_output=True, text=True, timeout=60)
+            r = subprocess.run(["addr2line", "-f", "-C", "-e", str(exe)] + addrs[:40], capture_output=True, text=True, timeout=1800)
         except (OSError, subprocess.TimeoutExpired):
             continue
         L = r.stdout.splitlines()
@@ -848,26 +880,64 @@ def small_input(c):
     return tot < 4096 and not any(k in ("loaddb", "loaddbstr") for k, _ in c["ops"])
 
 
-def judge_timeout(ctx, plain, c, timeout, info=None):
-    """a timeout alone cannot tell a hang from a slow run: re-run the case alone on the plain (3-5x faster) build. Reported are
-    (1) the listed constant-rate KINETICS signature, (2) small inputs (no large number, < 4 kB, no TRANSPORT/ADVECTION/KINETICS time stepping) whose two
-    stack samples on the plain build sit in the same engine function: keyed `hang:<function>`"""
-    rec = run_one(plain, c, timeout)
-    if rec is None or rec["end"] is None or rec["end"]["status"] != "timeout":
-        return None
-    if constant_rate_signature(c):
-        return ("hang", "hang-kinetics-constant-rate", f"the call did not return within {timeout} s on the sanitizer build nor, re-run alone, on the plain build "
-                                                         "(RATES program whose SAVE does not depend on TIME)")
-    err = rec["end"]["stderr"]
-    sites = sample_sites(plain, err[err.find("#SAMPLE"):] if "#SAMPLE" in err else "")
+def sample_events(text):
+    """event counters printed with the stack samples: [at half of the CPU budget, at the end, 0.4 s later]"""
+    return [int(x) for x in re.findall(r"#SAMPLE ev=(\d+)", text)]
+
+
+def confirm_hang(plain, c):
+    """re-run the case alone on the plain build with a budget of HANG_CPU seconds of the child's *own CPU time* (load-independent).
+    → (hang: bool, sites, why). A hang needs: the whole CPU budget burnt, and no PHRQ_io event routed during its second half (no progress)."""
+    c2 = dict(c, timeout=HANG_CPU)
+    rec = run_one(plain, c2, HANG_CPU)
+    if rec is None or rec["end"] is None:
+        return False, [], "no result"
+    end = rec["end"]
+    if end["status"] != "timeout":
+        return False, [], "returned or guard: " + end["status"]
+    err = end["stderr"]
+    part = err[err.find("#SAMPLE"):] if "#SAMPLE" in err else ""
+    evs = sample_events(part)
+    sites = sample_sites(plain, part)
+    if len(evs) < 2 or evs[0] != evs[-1]:
+        return False, sites, f"progress during the second half of the budget (events {evs})"
+    return True, sites, f"{end.get('cpu', 0):.0f} s of CPU consumed alone on the plain build, no PHRQ_io event during the last {HANG_CPU // 2} s of it (event counter {evs})"
+
+
+def could_be_judged_a_hang(c):
+    if c["family"] == "corpus" or constant_rate_signature(c):
+        return True
     text = b" ".join((p_ if isinstance(p_, bytes) else p_.encode()) for _, p_ in c["ops"]).upper() + b" ".join(c["files"].values()).upper()
     stepping = any(k in text for k in (b"TRANSPORT", b"ADVECTION", b"KINETICS", b"INVERSE", b"-STEPS", b"FOR ", b"WHILE", b"GOTO", b"GOSUB"))
-    if small_input(c) and not stepping and len(sites) >= 2 and sites[0] == sites[1] and sites[0] != "?":
-        return ("hang", "hang:" + sites[0], f"the call did not return within {timeout} s on the sanitizer build nor, re-run alone, on the plain build; both stack "
-                                             f"samples taken 0.4 s apart are inside {sites[0]} (input < 4 kB, no number >= 1000, no time stepping or BASIC loop)")
+    return small_input(c) and not stepping
+
+
+def judge_timeout(ctx, plain, c, timeout, info=None):
+    """the sanitizer run used up its CPU budget. That alone is never a verdict: the case is re-run alone on the plain build with HANG_CPU seconds
+    of CPU (`confirm_hang`). Reported are (1) the listed constant-rate KINETICS signature, (2) corpus cases, (3) small inputs (no large number,
+    < 4 kB, no time stepping / BASIC loop) whose stack samples (half budget / end) sit in the same engine function: keyed `hang:<function>`"""
+    hang, sites, why = confirm_hang(plain, c)
+    if not hang:
+        if info is not None:
+            info["timeout_not_a_hang"] = why
+        return None
+    if constant_rate_signature(c):
+        return ("hang", "hang-kinetics-constant-rate", "the call does not return: " + why + " (RATES program whose SAVE does not depend on TIME)")
+    text = b" ".join((p_ if isinstance(p_, bytes) else p_.encode()) for _, p_ in c["ops"]).upper() + b" ".join(c["files"].values()).upper()
+    stepping = any(k in text for k in (b"TRANSPORT", b"ADVECTION", b"KINETICS", b"INVERSE", b"-STEPS", b"FOR ", b"WHILE", b"GOTO", b"GOSUB"))
+    if c["family"] == "corpus":
+        return ("hang", "hang:corpus:" + c["tag"], f"corpus case {c['tag']} does not return: " + why + f"; sampled in {sites[:3]}")
+    if small_input(c) and not stepping and len(sites) >= 2 and sites[0] == sites[-1] and sites[0] != "?":
+        return ("hang", "hang:" + sites[0], "the call does not return: " + why + f"; all stack samples are inside {sites[0]} (input < 4 kB, no number >= 1000, "
+                                             "no time stepping or BASIC loop)")
     if info is not None:
         info["unexplained_timeout_sites"] = sites
     return None
+
+
+def confirm_base_load_hang(plain, c):
+    hang, sites, why = confirm_hang(plain, dict(c, ops=[], pre=[], probe=None))
+    return hang, why
 
 
 # ------------------------------------------------------------------------------------------------ entry points
@@ -903,10 +973,12 @@ def run(ctx):
     after_failed = {}
     mut_kinds, hang_sites, hist_stats = {}, {}, dict(histories=0, calls={}, reload_db={}, reload_no_END=0, reload_as_string=0)
     chunk = 960
+    pending, base_hang = [], [None]
+    confirm_pool = concurrent.futures.ThreadPoolExecutor(max_workers=4)
     for base in range(0, len(cases), chunk):
         part = cases[base:base + chunk]
-        recs = run_cases(exe, part, timeout)
-        for c, rec in zip(part, recs):
+        for idx_, rec in run_cases_iter(exe, part, timeout):
+            c = part[idx_]
             a = analyse(ctx, exe, c, rec)
             evals += 1
             fam.setdefault(c["family"], {}).setdefault(a["status"].split(":")[0], 0)
@@ -938,29 +1010,34 @@ def run(ctx):
                 if len(ctx.cov["samples"]) < 3 and inf.get("nerr", 0) and c["family"] != "corpus":
                     ctx.sample(dict(family=c["family"], tag=c["tag"][:80], input=txt(c["ops"][0][1], 300), returns=inf["ret"], error_events=inf["nerr"],
                                     warning_events=inf["nwarn"]))
-            elif a["status"] == "notjudged:timeout" and (stats["timeouts_rerun_on_plain_build"] < ctx.n(8, 80) or c["family"] == "corpus"):
-                stats["timeouts_rerun_on_plain_build"] += 1
-                iss = judge_timeout(ctx, plain, c, c.get("timeout") or timeout, inf)
-                if iss:
-                    stats["timeouts_confirmed_on_plain_build"] += 1
-                    a["issues"].append(iss)
-                elif c["family"] == "corpus":
-                    # a fixed regression input that no longer returns is never only "counted"
-                    a["issues"].append(("hang", "hang:corpus:" + c["tag"], f"corpus case {c['tag']} did not return within its time limit (sanitizer build)"))
-                for st_ in inf.get("unexplained_timeout_sites", []):
+            elif a["status"] == "notjudged:timeout" and not could_be_judged_a_hang(c):
+                # large counts / time stepping / loops: a long run is what the input asks for; counted with the sampled engine function
+                for st_ in sample_sites(exe, inf.get("samples", ""))[-1:]:
                     hang_sites[st_] = hang_sites.get(st_, 0) + 1
+            elif a["status"] == "notjudged:timeout" and (stats["timeouts_rerun_on_plain_build"] < ctx.n(8, 60) or c["family"] == "corpus"):
+                stats["timeouts_rerun_on_plain_build"] += 1
+                pending.append((c, inf, confirm_pool.submit(judge_timeout, ctx, plain, c, c.get("timeout") or timeout, inf)))
             for iss in a["issues"]:
-                if iss[1] == "hang:base-database-load" and iss[1] in seen:
-                    seen[iss[1]] += 1                              # already confirmed and reported once in this run
-                    continue
                 if iss[1] == "hang:base-database-load":
-                    rec2 = run_one(plain, c, timeout)             # confirm alone on the plain build: an overloaded machine is not a hang
-                    if rec2 is not None and any(ln.startswith("L0 ") for ln in rec2["lines"]):
+                    if base_hang[0] is None:                       # confirmed once per run, alone on the plain build, by CPU time
+                        base_hang[0] = confirm_base_load_hang(plain, c)
+                    if not base_hang[0][0]:
                         stats["base_load_timeouts_not_confirmed"] = stats.get("base_load_timeouts_not_confirmed", 0) + 1
                         continue
+                    iss = (iss[0], iss[1], iss[2] + "; " + base_hang[0][1])
                 cls_count[iss[0]] = cls_count.get(iss[0], 0) + 1
                 report(ctx, exe, c, iss, timeout, seen, withheld=withheld)
         ctx.log(f"{evals}/{len(cases)} cases, {len(seen)} distinct issue keys, {len(ctx.violations)} violations, {len(withheld)} withheld")
+    for c, inf, fut in pending:                                    # hang confirmations (each HANG_CPU seconds of CPU on the plain build) ran alongside
+        iss = fut.result()
+        if iss:
+            stats["timeouts_confirmed_on_plain_build"] += 1
+            cls_count[iss[0]] = cls_count.get(iss[0], 0) + 1
+            report(ctx, exe, c, iss, timeout, seen, withheld=withheld)
+        for st_ in inf.get("unexplained_timeout_sites", []):
+            hang_sites[st_] = hang_sites.get(st_, 0) + 1
+    confirm_pool.shutdown()
+    ctx.log(f"{len(pending)} CPU-budget timeouts re-run alone on the plain build, {stats['timeouts_confirmed_on_plain_build']} confirmed as hangs")
     if withheld:
         print(f"C08: {len(withheld)} further distinct new issue keys withheld after the first {NEW_KEY_CAP} violations (listed in evidence/C08.json): "
               + ", ".join(sorted(withheld)[:12]), flush=True)
@@ -985,7 +1062,10 @@ def run(ctx):
                        "entities (unknown names, undefined numbers), extreme (1e308, nan, inf, huge integers, long tokens/lines), bytes (NUL-free arbitrary bytes), "
                        "database (the same on database text via LoadDatabaseString/LoadDatabase), files (missing/directory/odd paths, unwritable output names, "
                        "INCLUDE$). Entry point RunString 70 % / RunFile 15 % / AccumulateLine+RunAccumulated 15 %. non-trivial = judged cases with at least one "
-                       "ERROR or WARNING event. Not judged: timeouts (re-run alone on the plain build; only the listed constant-rate signature is routed), allocator "
+                       "ERROR or WARNING event. Time limits are budgets of the child's own CPU time (20 s quick / 30 s thorough on the sanitizer build), never wall time; a "
+                       "hang verdict needs 60 s of CPU burnt alone on the plain build with no PHRQ_io event during the second half, and is given only to the listed "
+                       "constant-rate signature, corpus cases, the base database load and small inputs without time stepping; the wall-clock guard (30x budget + 120 s) "
+                       "only yields 'not judged'. Not judged: other CPU-budget timeouts (counted with the sampled engine function), allocator "
                        "limits of the sanitizer, cases whose history call failed.")
     ctx.level = "proof"
     ctx.assumptions.append("crash-freedom, absence of undefined behaviour and reload-equivalence of the engine are sanitizer-backed exploration (layer N), not theorems")
@@ -1038,7 +1118,8 @@ MANIFEST = dict(
          "interposed exit functions, __cxa_throw hook), pmodel route (Driver/Route.lean) as evaluator of the Route functions, the comparison in props/c08.py; byte "
          "strings cross to the Lean driver through a latin-1 bijection. Partial: crash-freedom, no-UB, no-exit, no-escaping-exception and the engine half of the "
          "reload are sanitizer-backed exploration, not theorems; the typing of the running phase (no bare input_error++) rests on the site table plus one reviewed "
-         "exception (print_mix); timeouts are counted, re-run alone on the plain build, and only the listed constant-rate KINETICS signature is routed; "
+         "exception (print_mix); time limits are CPU-time budgets of the child (load-independent), hang verdicts need 60 CPU-s without progress alone on the plain "
+         "build and are restricted to the listed constant-rate KINETICS signature, corpus cases, the base load and small inputs without time stepping; "
          "allocation limits of the sanitizer allocator are not judged; leaks are not judged (not in the statement). BASIC tokens PEEK/POKE are excluded from "
          "generated programs (known finding basic-peek-poke, reproduced from the corpus on every run).",
 )
